@@ -177,9 +177,15 @@ def run(cx):
         oki = okp = okg = False
         ea = match('(call Iterator::collect (call Iterator::map $a _))', ev['v']) if ev else None
         if ok and ea is not None:
-            inner = CP.comprehensions(cx, b, ea['a'])
-            inits = [c['init'] for c in inner if c.get('form') == 'init']
-            els = [c for c in inner if c.get('elem') is not None]
+            ch = match('(call Iterator::chain $i $rest)', ea['a'])
+            if ch is not None:
+                # `[a0, a0 + a].into_iter().chain((0..4).map(..).filter(..))`: the literal and the filtered quadrant angles as one chain
+                inits = [('veclit', ch['i'])]
+                els = [c for c in CP.comprehensions(cx, b, ('call', 'Iterator::collect', ch['rest'])) if c.get('elem') is not None]
+            else:
+                inner = CP.comprehensions(cx, b, ea['a'])
+                inits = [c['init'] for c in inner if c.get('form') == 'init']
+                els = [c for c in inner if c.get('elem') is not None]
             oki = len(inits) == 1 and match('(veclit (agg array (0 (param angle0)) (1 (add (param angle0) (param angle)))))', inits[0]) is not None
             T = None
             if len(els) == 1:
